@@ -23,15 +23,15 @@ theorem pw_tidy : ∀ (b : KBox) (f : Bool), Tidy b → Tidy (pw b f).1
     · rename_i ht
       have hnt : Gen.isSub k .TextBox = false := by simpa using ht
       unfold Tidy
-      exact ⟨(fun hf => by rw [hnt] at hf; cases hf), hp.2.1, pwKids_tidy _ kids f hp.2.2⟩
-theorem pwKids_tidy : ∀ (bf : Bool) (l : List KBox) (f : Bool), TidyL l → TidyL (pwKids bf l f).1
-  | _, [], _, _ => by simp [pwKids, TidyL]
-  | bf, c :: cs, f, h => by
+      exact ⟨(fun hf => by rw [hnt] at hf; cases hf), hp.2.1, pwKids_tidy kids f hp.2.2⟩
+theorem pwKids_tidy : ∀ (l : List KBox) (f : Bool), TidyL l → TidyL (pwKids l f).1
+  | [], _, _ => by simp [pwKids, TidyL]
+  | c :: cs, f, h => by
     unfold TidyL at h
     unfold pwKids
     split
-    · exact ⟨pw_tidy c f h.1, pwKids_tidy bf cs _ h.2⟩
-    · exact ⟨h.1, pwKids_tidy bf cs _ h.2⟩
+    · exact ⟨pw_tidy c f h.1, pwKids_tidy cs _ h.2⟩
+    · exact ⟨h.1, pwKids_tidy cs _ h.2⟩
 end
 
 mutual
